@@ -464,6 +464,119 @@ def role_checks(out_dir: str) -> list[tuple[str, str]]:
     return out
 
 
+# ---- member docstrings: every layout of the two formula placeholders -------------------------------
+
+_LAYOUT_LAW = '''"""
+{title}
+{underline}
+
+Force is mass times acceleration.
+"""
+
+from sympy import Eq
+from symplyphysics import symbols
+
+force = symbols.force
+"""
+:symbols:`force` acting on the body.
+"""
+
+mass = symbols.mass
+"""
+:symbols:`mass` of the body.
+"""
+
+acceleration = symbols.acceleration
+"""
+:symbols:`acceleration` of the body.
+"""
+
+law = Eq(force, mass * acceleration)
+"""
+{law_doc}
+"""
+'''
+
+
+def layout_cases() -> list[tuple[str, str]]:
+    """a synthetic package whose laws differ only in how the author laid out the docstring of
+    `law`: both orders of the two placeholders, one placeholder alone, with and without text before,
+    between and after them; generated by the real generator"""
+    import sympy as sp
+    from symplyphysics import symbols as S_
+    from symplyphysics.docs import build as B
+    from symplyphysics.docs.printer_code import code_str
+    from symplyphysics.docs.printer_latex import latex_str
+    tmp = tempfile.mkdtemp(prefix="c19_layout_")
+    out = []
+    try:
+        pkg = os.path.join(tmp, "src", "layoutpkg")
+        os.makedirs(pkg)
+        open(os.path.join(tmp, "src", "__init__.py"), "w").close()
+        with open(os.path.join(pkg, "__init__.py"), "w") as f:
+            f.write('"""\nLayouts\n=======\n\nA package of sample laws.\n"""\n')
+        layouts = {}
+        for order in (("S", "L"), ("L", "S"), ("S", ), ("L", )):
+            for gaps in itertools.product((False, True), repeat=len(order) + 1):
+                name = "law_" + "".join(order).lower() + "_" + "".join("t" if g else "n" for g in gaps)
+                pieces, want = [], []
+                for i, tok in enumerate(order):
+                    if gaps[i]:
+                        pieces.append(f"Words number {i} of the author.")
+                        want.append(("text", f"Words number {i} of the author."))
+                    pieces.append(":laws:symbol::" if tok == "S" else ":laws:latex::")
+                    want.append((tok, ""))
+                if gaps[-1]:
+                    pieces.append("Closing words of the author.")
+                    want.append(("text", "Closing words of the author."))
+                layouts[name] = want
+                title = name.replace("_", " ")
+                with open(os.path.join(pkg, name + ".py"), "w") as f:
+                    f.write(_LAYOUT_LAW.format(title=title, underline="=" * len(title),
+                        law_doc="\n\n".join(pieces)))
+        outdir = os.path.join(tmp, "generated")
+        os.makedirs(outdir)
+        cwd = os.getcwd()
+        os.chdir(tmp)
+        try:
+            B.generate_laws_docs("src", outdir, [], True)
+        finally:
+            os.chdir(cwd)
+        eq = sp.Eq(S_.force, S_.mass * S_.acceleration)
+        code_block, latex_line = f":code:`{code_str(eq)}`", latex_str(eq)
+        for name, want in layouts.items():
+            key = f"layout:{name}"
+            path = os.path.join(outdir, f"layoutpkg.{name}.rst")
+            if not os.path.exists(path):
+                out.append((key, "no page was generated"))
+                continue
+            with open(path, encoding="utf-8") as f:
+                page = f.read()
+            member = page[page.find("py:data:: law"):]
+            msgs = []
+            if ":laws:" in member or "laws:" in member.replace(":laws:", ""):
+                msgs.append("a piece of a placeholder is left in the page")
+            n_s = sum(1 for t, _ in want if t == "S")
+            n_l = sum(1 for t, _ in want if t == "L")
+            if member.count(code_block) != n_s:
+                msgs.append(f"code rendering occurs {member.count(code_block)} times, expected {n_s}")
+            if member.count(latex_line) != n_l or member.count(".. math::") != n_l:
+                msgs.append(f"LaTeX rendering occurs {member.count(latex_line)} times in "
+                    f"{member.count('.. math::')} math blocks, expected {n_l}")
+            pos = -1
+            for t, text in want:
+                needle = text if t == "text" else (code_block if t == "S" else latex_line)
+                found = member.find(needle, pos + 1)
+                if found < 0:
+                    msgs.append(f"{needle!r} is missing or out of order")
+                    break
+                pos = found
+            out.append((key, "; ".join(msgs)))
+    finally:
+        shutil.rmtree(tmp, ignore_errors=True)
+    return out
+
+
 def package_pass(mode: str, thorough: bool) -> dict:
     """one process: pass 1 (+ pass 2 and reverse order in the main pass); returns digests and
     findings"""
@@ -477,6 +590,7 @@ def package_pass(mode: str, thorough: bool) -> dict:
         res["digests"]["walk"] = digest_dir(d1)
         res["cases"].append(("monitor:pass1", "; ".join(monitor[:3])))
         if mode == "main":
+            res["cases"] += layout_cases()
             res["cases"] += page_checks(d1, 1 if thorough else 1)
             monitor2: list[str] = []
             d2 = os.path.join(tmp, "p2")
